@@ -36,3 +36,29 @@ fn remove_cells_tail_bumps_generation_contract() {
     kani::cover!(removed == 0, "COV nothing removed");
     core::mem::forget(t);
 }
+
+// C05: per-vertex decision of validate_vertex_incidence (loop body): an incident-cell hint must
+// name a LIVE cell that CONTAINS the vertex.  One real (dummy, vertex-less) cell is stored so
+// that "live but wrong cell" can be told apart from "dangling".
+fn stub_format(_a: core::fmt::Arguments<'_>) -> String {
+    String::with_capacity(1)
+}
+
+#[kani::proof]
+#[kani::unwind(6)]
+#[kani::stub(alloc::fmt::format, stub_format)]
+fn vertex_incidence_decision_contract() {
+    let mut t = Tds2::empty();
+    let live = t.cells.insert(crate::core::cell::verif_kani_cell_helper::dummy_cell::<f64, (), (), 2>());
+    let vk = VertexKey::from(slotmap::KeyData::from_ffi(0x1_0000_0005));
+    // the hint names the live cell (which does not list the vertex) or a key that is not in storage
+    let dangling = CellKey::from(slotmap::KeyData::from_ffi(0x7_0000_0009));
+    let use_live: bool = kani::any();
+    let hint = if use_live { live } else { dangling };
+    let r = t.verif_slice_vertex_incidence_decision(vk, hint);
+    assert!(r.is_err(), "OBL hint-must-contain-vertex: an incident-cell hint that is dangling OR names a live cell which does not contain the vertex is rejected (stale incident-cell pointer)");
+    kani::cover!(use_live, "COV live but wrong cell");
+    kani::cover!(!use_live, "COV dangling");
+    core::mem::forget(r);
+    core::mem::forget(t);
+}
